@@ -484,7 +484,7 @@ class World:
                 if op.get("out"):
                     self.handles[op["out"]] = data
                     self.kinds[op["out"]] = "payload"
-                    self.meta[op["out"]] = {"m": m, "opts": list(opts), "t": op["t"], "hits": FAULTS.hits.get("tok_ser", 0)}
+                    self.meta[op["out"]] = {"m": m, "opts": list(opts), "t": op["t"], "hits": FAULTS.hits.get("tok_ser", 0), "dialect": "dialect" in opts and m in ("as_dict", "to_yaml"), "spec": RW.spec_of(o) if isinstance(o, ASTNode) else None}
                 self.last_hits = dict(FAULTS.hits)
         else:
             data = self.handles.get(op["p"])
@@ -510,6 +510,22 @@ class World:
                     self.stats.probes["bad_input_rejected:" + bad["mut"]] += 1
             finally:
                 FAULTS.disarm()
+            if outcome == "ok" and not bad and pm.get("spec") is not None:
+                # the options of a deserialization call take effect on every nested object too: with the dialect the
+                # payload was written with, every value (at every depth) must come back as it was
+                try:
+                    got = RW.spec_of(res)
+                except Exception:  # noqa: BLE001
+                    got = None
+                if got != pm["spec"]:
+                    raise self.viol(
+                        "C16.11 deserialization-option-effect",
+                        f"C16.11:{'dialect' if pm.get('dialect') else 'plain'}",
+                        f"{m} with options {sorted(opts)}: the re-created tree differs from the serialized one (a nested value was read without the call's dialect / options)",
+                        want=pm["spec"],
+                        got=got,
+                    )
+                self.stats.probes["deser_result_checked" + (":dialect" if pm.get("dialect") else "")] += 1
             if outcome == "ok":
                 if bad:
                     self.stats.probes["bad_input_accepted:" + bad["mut"]] += 1
@@ -570,7 +586,9 @@ class Gen:
                 # deserialization call
                 p = r.choice(payloads)
                 m = PAIR[w.meta[p]["m"]]
-                opts = self.opts(m)
+                opts = [o for o in self.opts(m) if o != "dialect"]
+                if w.meta[p].get("dialect"):
+                    opts.append("dialect")
                 t = w.meta[p]["t"]
                 if t in w.handles and r.random() < 0.8:
                     do({"op": "detach", "t": t})
@@ -603,7 +621,7 @@ class Gen:
                     t = "origin:" + r.choice(U.ORIGIN_KEYS)
                 else:
                     t = r.choice(["source:a", "source:b", "position:c:a:0-5", "position:m:ab"])
-                keep = t in trees and not ({"skip", "test", "explorer"} & set(opts)) and not ("dialect" in opts)
+                keep = t in trees and not ({"skip", "test", "explorer"} & set(opts))
                 out = f"p{ci}" if keep else None
                 do({"op": "call", "m": m, "t": t, "opts": opts, "out": out})
                 if out and out in w.handles:
